@@ -66,13 +66,14 @@ type Enc struct {
 	leafInfo  map[string]leafReg
 	loopEpochs map[int]bool // heap epochs created by loop havocs
 	mergeEpochs map[int]*mergeEp
+	keepLockEpochs map[int]*mergeEp
 	noLocksAtEntry bool
 	nsub      int
 	frameHook func(name string, t Term, sort string)
 }
 
 func NewEnc(db *ContractDB, prog *ssa.Program, pkg *ssa.Package) *Enc {
-	return &Enc{decls: map[string]string{}, funs: map[string]string{}, axiomSet: map[string]bool{}, strConsts: map[string]int{}, typeIDs: map[string]int{}, usedSpecs: map[string]bool{}, db: db, prog: prog, pkg: pkg, assumedUsed: map[string]bool{}, inlinedUsed: map[string]bool{}, havocAllCalls: map[string]bool{}, refLeaf: map[string]int{}, refDone: map[string]bool{}, epochHwm: map[int]Term{}, leafInfo: map[string]leafReg{}, loopEpochs: map[int]bool{}, mergeEpochs: map[int]*mergeEp{}}
+	return &Enc{decls: map[string]string{}, funs: map[string]string{}, axiomSet: map[string]bool{}, strConsts: map[string]int{}, typeIDs: map[string]int{}, usedSpecs: map[string]bool{}, db: db, prog: prog, pkg: pkg, assumedUsed: map[string]bool{}, inlinedUsed: map[string]bool{}, havocAllCalls: map[string]bool{}, refLeaf: map[string]int{}, refDone: map[string]bool{}, epochHwm: map[int]Term{}, leafInfo: map[string]leafReg{}, loopEpochs: map[int]bool{}, mergeEpochs: map[int]*mergeEp{}, keepLockEpochs: map[int]*mergeEp{}}
 }
 
 func (e *Enc) declare(name, sort string) Term {
@@ -176,6 +177,7 @@ type State struct {
 	decr   map[*ssa.BasicBlock]Term
 	rangePos map[ssa.Value]Term // Range instr -> current position
 	promoted map[ssa.Value]Term // local cells whose address escaped: now heap objects
+	lastRead map[string]Term    // guarded field|owner -> critical-section counter at the last read
 	inAxiom bool
 	allocSeq map[ssa.Value]int // order in which local cells were (last) allocated
 	seq     int
@@ -224,6 +226,10 @@ func (s *State) clone() *State {
 	for k, v := range s.allocSeq {
 		n.allocSeq[k] = v
 	}
+	n.lastRead = make(map[string]Term, len(s.lastRead))
+	for k, v := range s.lastRead {
+		n.lastRead[k] = v
+	}
 	n.promoted = make(map[ssa.Value]Term, len(s.promoted))
 	for k, v := range s.promoted {
 		n.promoted[k] = v
@@ -246,7 +252,29 @@ func (s *State) resolve(p *Place) *Place {
 	if _, isStruct := ct.Underlying().(*types.Struct); isStruct {
 		base = "H_" + typeKey(ct)
 	}
-	return &Place{Kind: PHeap, Typ: p.Typ, Prefix: base + p.Path, Obj: ref}
+	// walk the field path with Place.field so that nested named structs become sub-objects,
+	// exactly as for objects that were heap-allocated from the start
+	hp := &Place{Kind: PHeap, Typ: ct, Prefix: base, Obj: ref}
+	for _, comp := range strings.Split(strings.TrimPrefix(p.Path, "."), ".") {
+		if comp == "" {
+			continue
+		}
+		st, ok := hp.Typ.Underlying().(*types.Struct)
+		if !ok {
+			return &Place{Kind: PHeap, Typ: p.Typ, Prefix: base + p.Path, Obj: ref}
+		}
+		idx := -1
+		for i := 0; i < st.NumFields(); i++ {
+			if st.Field(i).Name() == comp {
+				idx = i
+			}
+		}
+		if idx < 0 {
+			return &Place{Kind: PHeap, Typ: p.Typ, Prefix: base + p.Path, Obj: ref}
+		}
+		hp = hp.field(idx)
+	}
+	return hp
 }
 
 func cellType(c ssa.Value) types.Type {
@@ -261,12 +289,24 @@ func (s *State) promote(v Value) Value {
 	p := v.Place
 	if ref, ok := s.promoted[p.Cell]; ok {
 		if p.Lo != 0 || p.Path != "" {
-			panic(unsupported("address of a field of an escaped local"))
+			hp := s.resolve(p)
+			if named, ok := hp.Typ.(*types.Named); ok && hp.Kind == PHeap && strings.HasPrefix(hp.Prefix, "H_"+typeKey(named)) {
+				return Value{Typ: v.Typ, L: []Term{hp.Obj}}
+			}
+			return Value{Typ: v.Typ, L: []Term{I(0)}, Place: hp}
 		}
 		return Value{Typ: v.Typ, L: []Term{ref}}
 	}
 	if p.Lo != 0 || p.Path != "" {
-		panic(unsupported("address of a field of a local escapes"))
+		// the address of a field escapes: the whole local becomes a heap object and the pointer
+		// designates the field inside it
+		s.promote(Value{Typ: p.Cell.Type(), L: []Term{I(0)}, Place: &Place{Kind: PLocal, Typ: cellType(p.Cell), Cell: p.Cell}})
+		hp := s.resolve(p)
+		if named, ok := hp.Typ.(*types.Named); ok && hp.Kind == PHeap && strings.HasPrefix(hp.Prefix, "H_"+typeKey(named)) {
+			// a sub-object: an ordinary reference
+			return Value{Typ: v.Typ, L: []Term{hp.Obj}}
+		}
+		return Value{Typ: v.Typ, L: []Term{I(0)}, Place: hp}
 	}
 	cur, ok := s.cells[p.Cell]
 	if !ok {
@@ -320,6 +360,10 @@ type mergeEp struct {
 // version declares the unknown ("base") version of heap array name at epoch ep, with the facts
 // every such version satisfies.
 func (e *Enc) version(name, sort string, ep int) Term {
+	if kl, ok := e.keepLockEpochs[ep]; ok && (strings.HasPrefix(name, "LK_") || strings.HasPrefix(name, "LKE_")) {
+		// lock state survives this havoc: same version as before it
+		return e.version(name, sort, epochFor(name, kl.aEpoch, kl.aPref))
+	}
 	vn := fmt.Sprintf("%s@e%d", sanitizeHeap(name), ep)
 	if _, seen := e.decls[vn]; seen {
 		return Term{vn, sort}
@@ -448,6 +492,24 @@ func (s *State) havocPrefix(prefix string) int {
 	s.hwm = nh
 	s.enc.epochHwm[ep] = nh
 	return ep
+}
+
+// havocAllKeepLocks: everything other goroutines (or an unknown callee that is assumed to
+// balance its locking) may change is forgotten; the set of locks held by *this* goroutine
+// (ghost LK_/LKE_ arrays) is kept.
+func (s *State) havocAllKeepLocks() {
+	prevEpoch, prevPref := s.epoch, copyIntMap(s.prefEp)
+	kept := map[string]Term{}
+	for n, t := range s.heap {
+		if strings.HasPrefix(n, "LK_") || strings.HasPrefix(n, "LKE_") {
+			kept[n] = t
+		}
+	}
+	s.havocAll()
+	s.enc.keepLockEpochs[s.epoch] = &mergeEp{aEpoch: prevEpoch, aPref: prevPref}
+	for n, t := range kept {
+		s.heap[n] = t
+	}
 }
 
 func (s *State) havocAll() {
